@@ -266,6 +266,14 @@ func (u *c15Upstream) ServeHTTP(w http.ResponseWriter, r *http.Request) {
 		w.Header().Set("Content-Type", "text/plain")
 		w.WriteHeader(500)
 		_, _ = io.WriteString(w, "Internal Server Error")
+	case "http502_empty":
+		w.Header().Set("Content-Length", "0")
+		w.WriteHeader(502)
+	case "http503_cut":
+		// a complete response (Content-Length matches) whose JSON error object stops half way
+		w.Header().Set("Content-Type", "application/json")
+		w.WriteHeader(503)
+		_, _ = io.WriteString(w, `{"status":"error","errorTy`)
 	case "server_error":
 		c15JSON(w, 503, `{"status":"error","errorType":"server_error","error":`+q("boom "+u.token)+`}`)
 	case "bad_data":
